@@ -55,4 +55,55 @@ PROPS = {
         "note": "Trusts objstore's in-memory bucket for object semantics; local disk is real and un-torn; 'eligible' is computed by the "
                 "harness from the property text (non-empty and level 1, or compacted uploads enabled).",
     },
+    "C29": {
+        "world": "BL",
+        "level": "fault_enumeration",
+        "technique": "deterministic simulation of compactor + store-gateway views on a simulated bucket and fake clock; crash-point enumeration with restart to quiescence; sample-level oracle",
+        "design_ref": "DESIGN.md §6 C29",
+        "quick": {"runs": 64, "seconds": 80},
+        "thorough": {"runs": 2000, "seconds": 1500},
+        "rule": "one evaluation = one generated deployment (layout aligned | replicas+vertical dedup | overlapping+vertical | two groups; 2-10 real TSDB "
+                "blocks; delays = cmd/thanos defaults or drawn; 1-2 store-gateway views with periodic sync; compaction levels 2h/8h or 2h/4h/8h) run to "
+                "quiescence fault-free, then re-run with the compactor killed at its k-th bucket operation (quick: seeded sample of 8 points; thorough: "
+                "up to 400 = all) and restarted (local dir kept or wiped), plus optionally one run with seeded transient bucket errors. Oracle after every "
+                "bucket mutation: every original sample is in some gateway's current view of intact blocks; at quiescence each gateway serves exactly the "
+                "original samples, each once. distinct = distinct event-log hash; non-trivial = the compactor issued bucket operations.",
+        "components": {
+            "real": ["compact.BucketCompactor, Group.compact, Syncer (SyncMetas, GarbageCollect), DefaultGrouper, planner chain, BlocksCleaner, "
+                     "ApplyRetentionPolicyByResolution, BestEffortCleanAbortedPartialUploads", "tsdb.LeveledCompactor on real TSDB blocks",
+                     "block.BaseFetcher/MetaFetcher with both listers and the compactor's and the store gateway's real filter chains",
+                     "block.Upload/Download/Delete/MarkForDeletion", "objstore in-memory bucket"],
+            "stub": ["cmd/thanos wiring (re-created; delays, delay expression and filter order extracted from cmd/thanos/*.go with go/ast on every run)",
+                     "store gateway data path (its view is the real fetcher + filters + the add/drop rule of BucketStore.SyncBlocks; samples are read "
+                     "from the viewed blocks with the TSDB block reader)", "object storage transport (simbucket)", "clock (synctest fake clock)",
+                     "local disk (real, un-torn)", "downsampling (disabled)"],
+        },
+        "assumptions": ["atomic PUT, strongly consistent listing", "crash = no further bucket effect of the dead compactor; local compaction dir kept or wiped",
+                        "gateway sync interval below deleteDelay - ignoreDeletionMarksDelay; ignoreDeletionMarksDelay <= deleteDelay/2",
+                        "replicated streams hold identical samples at equal timestamps"],
+        "text": "Crash points of the compactor's bucket operation sequence are enumerated per generated deployment (all of them in the thorough tier); "
+                "deployments, schedules (bucket operations of compactor and gateways interleave under the seeded scheduler) and transient faults are sampled.",
+        "note": "The store gateway's serving path is represented by its block view; the TSDB block reader is trusted to decode blocks.",
+    },
+    "C34": {
+        "world": "BL",
+        "level": "exploration",
+        "technique": "deterministic simulation: seeded interleavings of compactor steps and store-gateway syncs at bucket-operation granularity on a fake clock, random compactor crashes, sample-level availability oracle",
+        "design_ref": "DESIGN.md §6 C34",
+        "quick": {"runs": 320, "seconds": 70},
+        "thorough": {"runs": 12000, "seconds": 1200},
+        "rule": "one evaluation = one generated deployment (as C29: 4 layouts, real TSDB blocks, delays = cmd/thanos defaults or drawn with "
+                "ignoreDeletionMarksDelay <= deleteDelay/2, 1-2 gateways with sync interval 16/50/90% of (deleteDelay - ignoreDeletionMarksDelay - skew), "
+                "per-gateway phase and clock skew of +-10% of the ignore delay) run once to quiescence under one seeded schedule; a third of the runs kill "
+                "the compactor at random bucket operations (3 or 10 per mille) and restart it. Oracle after every bucket mutation and every gateway sync: "
+                "every original sample is in some gateway's current view of intact blocks; at quiescence exactly once per gateway. "
+                "distinct = distinct event-log hash; non-trivial = at least one compaction was planned.",
+        "components": None,
+        "assumptions": ["atomic PUT, strongly consistent listing", "gateway syncs do not fail (sync lag is bounded as the property states)",
+                        "clock skew between compactor and gateways within 10% of the ignore-deletion-marks delay",
+                        "the gateway's serving path is represented by its block view (real fetcher + real filter chain + BucketStore.SyncBlocks' add/drop rule)"],
+        "text": "Seeded sampling of schedules and deployments; every bucket operation of compactor and gateways is a scheduling point.",
+        "note": "cmd/thanos wiring is re-created; its delays, delay expression and filter order are extracted from the source on every run (exit 2 if that fails).",
+    },
 }
+PROPS["C34"]["components"] = PROPS["C29"]["components"]
